@@ -42,29 +42,34 @@ var wanted = []string{
 	"deriveRFC6287", "validateRFC6287", "GenerateOCRA", "ValidateOCRA",
 	"DigitsFromStr", "AlgorithmFromStr",
 	"parseTimeGranularity", "parseCryptoFunction", "parseDataInputTokens", "parseRawSuite",
-	"NewRawSuite", "NewSuite", "IsKnownSuite", "SuiteConfigFromRaws", "ListSuites",
+	"NewRawSuite", "SuiteConfig.String", "RawSuite.String", "MustRawSuite", "NewSuite", "IsKnownSuite", "SuiteConfigFromRaws", "ListSuites",
 	"To8ByteBigEndian", "ParseDecimalToBigEndian8", "ParseDecimal64BigEndian", "LeftPadHex", "MustHexPadLeft",
 	"ParseHexTimestamp", "ParseDecimalChallengeRFC6287", "HexInputToOCRA", "RandomSecret",
 	"Algorithm.String", "generateOTPURL", "GenerateTOTPURL", "GenerateHOTPURL", "ParseOTPAuthURL",
 }
 
 type tr struct {
-	pkg    *packages.Package
-	info   *types.Info
-	fset   *token.FileSet
-	decls  map[string]*ast.FuncDecl // "name" or "Recv.name"
-	lits   map[string]*ast.FuncLit  // package-level func variables
-	done   map[string]*fnInfo
-	failed map[string]string
-	out    []string
-	skip   map[string]bool
-	consts []string // harvested literals (for the input generators)
+	pkg          *packages.Package
+	info         *types.Info
+	fset         *token.FileSet
+	decls        map[string]*ast.FuncDecl // "name" or "Recv.name"
+	lits         map[string]*ast.FuncLit  // package-level func variables
+	done         map[string]*fnInfo
+	failed       map[string]string
+	out          []string
+	skip         map[string]bool
+	consts       []string // harvested literals (for the input generators)
 	globalNames  map[string]string
 	globalTables map[string]bool
 	globalAssoc  map[string]bool
 	ifaceUsed    map[string]bool
 	structsBad   string
 	mainMode     bool // translating wasm/main.go (package main): errors are their text, library calls go to Src / SrcWasm
+	restMode     bool // translating internal/app/api (with mainMode's conventions for errors and library calls)
+	badStructs   map[string]string
+	hasDecode    map[string]bool
+	hasMarshal   map[string]bool
+	libSigs      map[string]libFn // REST mode: the library functions as Generated/Src.v declares them
 }
 
 type fnInfo struct {
@@ -114,6 +119,14 @@ func main() {
 			t.mainMode = true
 			wanted = wantedMain
 		}
+		if os.Args[i] == "-rest" {
+			t.mainMode, t.restMode = true, true
+			wanted = wantedRest
+			t.badStructs, t.hasDecode, t.hasMarshal = map[string]string{}, map[string]bool{}, map[string]bool{}
+		}
+		if os.Args[i] == "-lib" && i+1 < len(os.Args) {
+			t.libSigs = readLibSigs(os.Args[i+1])
+		}
 		if os.Args[i] == "-skip" && i+1 < len(os.Args) {
 			for _, s := range strings.Split(os.Args[i+1], ",") {
 				if s != "" {
@@ -131,6 +144,9 @@ func main() {
 	pattern := "."
 	if t.mainMode {
 		pattern = "./wasm"
+	}
+	if t.restMode {
+		pattern = "./internal/app/api"
 	}
 	pkgs, err := packages.Load(cfg, pattern)
 	if err != nil || len(pkgs) != 1 || packages.PrintErrors(pkgs) > 0 {
@@ -172,7 +188,13 @@ func main() {
 	var b strings.Builder
 	b.WriteString("(* GENERATED from the Go sources of " + repo + " by /verif/tools/gen_model — do not edit. *)\n")
 	b.WriteString("From Coq Require Import String.\nFrom OtpV Require Import Prelude Sha GoSem Rfc4648 Errors Decoder Otp Ocra Utils Suite Url.\nOpen Scope N_scope.\n\n")
-	if t.mainMode {
+	if t.restMode {
+		if msg := t.checkStructs(); msg != "" {
+			b.WriteString("(* " + msg + " *)\n")
+			t.structsBad = msg
+		}
+		b.WriteString(t.restHeader())
+	} else if t.mainMode {
 		b.WriteString("From OtpV Require Import Wasm Src SrcWasm.\n")
 		b.WriteString("Definition js_type_go (v : jsval) : res bytes := match js_type_name v with Some n => Val n | None => Pnc end.\n")
 		b.WriteString("Definition js_string_go (v : jsval) : bytes := match v with JStr s => s | _ => [] end.\n")
@@ -254,7 +276,10 @@ func (t *tr) translate(q string) {
 	var ftype *ast.FuncType
 	var body *ast.BlockStmt
 	var recv *ast.FieldList
-	if d, ok := t.decls[q]; ok {
+	if d, ok := t.decls[q]; ok && t.restMode && handlerLit(d) != nil {
+		fl := handlerLit(d)
+		ftype, body = fl.Type, fl.Body
+	} else if d, ok := t.decls[q]; ok {
 		ftype, body, recv = d.Type, d.Body, d.Recv
 	} else if l, ok := t.lits[q]; ok {
 		ftype, body = l.Type, l.Body
